@@ -153,7 +153,7 @@ def walk (m : MFS) (follow : Bool) : Nat → Nat → Key → List Name → Res
         else walk m follow fuel (hops + 1) (if isRooted t then [] else cur) (splitSep t ++ rest)
 
 def namei (m : MFS) (p : Path) (follow : Bool) : Res :=
-  if p = [] then .err .notExist else walk m follow 4096 0 [] (splitSep p)
+  if p = [] then .err .notExist else walk m follow (4096 + (splitSep p).length) 0 [] (splitSep p)
 
 /-! ### FileInfo -/
 
